@@ -65,7 +65,7 @@ def run_section(body, n_pages):
         return type("Rec_" + nm, (RecStrategy,), {"name": nm})
     def post(pages, processed, rtf_body):
         seen["post"] = (list(pages), processed, rtf_body)
-    me = NS(encoding_service=RTFEncodingService(),
+    me = NS.of(UnifiedRTFEncoder, encoding_service=RTFEncodingService(),
             document_service=NS(calculate_additional_rows_per_page=lambda d: 7),
             feature_processor=NS(process=lambda d, p: NS(processed=p)),
             renderer=NS(render=lambda d, p: [("RENDER", p.processed.tag)]),
